@@ -31,6 +31,10 @@ Observation points: besides `scan_command(root)`, streams (2) and (3) and a shar
 scan after the fault the way users do - the function typer calls for `codelimit scan`
 (`codelimit.__main__.scan`, in a forked child, without and with -v) and, for the junk texts and the
 faults on the top-level members, `python -m codelimit scan [-v] root` in a fresh interpreter.
+Root spellings: every third variant of every stream, a share of the random histories and stream (6) (representatives of
+every fault class x every spelling x the three observation points) name the root the way users do - `.` inside the project
+(plain `codelimit scan`), a relative path, `../name`, a path with `..`, a path through a symbolic link (absolute and
+relative) - with the matching working directory (`cache_real.spell_root`).
 "A complete, valid cache": after EVERY scan the document left behind is compared field by field with the
 document a from-scratch scan of a copy of the tree writes - same keys at every level, same JSON types,
 same values, identifier and time stamp of the shape the writer produces (cache_real.full_shape)."""
@@ -47,6 +51,7 @@ TRUSTED = [
     "correspondence harness harness/props/C10.py + harness/cache_real.py (fault injection on the real cache file; abstraction function abstract_cache; rich output silenced by patching rich, not codelimit)",
     "stopped scans (stream 5): os.fork of the harness process, RLIMIT_FSIZE / SIGXFSZ or a sys.addaudithook that sends SIGKILL before the k-th open-for-writing / mkdir / remove / rename below the scanned root; what is left on disk is classified by abstract_cache; directory states the model has no word for (one marker file only) are checked by the oracles only and counted in distribution.oracle_only_histories",
     "observation points 1 and 2: codelimit.__main__.scan called in a forked child of the harness / harness/cache_cli_worker.py (runpy of the module codelimit with sys.argv = scan [-v] root) in a fresh interpreter, Scanner._analyze_file wrapped in both; exclusions of observation point 2 go through <root>/.codelimit.yml (typer's --exclude does not work with the click of this sandbox); the field-by-field comparison of the cache left behind (cache_real.full_shape / shape_diff) takes the shape of identifier and time stamp from the document a from-scratch scan writes",
+    "root spellings (cache_real.spell_root): `.` / relative / `../name` / with `..` / through a symbolic link `<root>.lnk` (absolute and relative), with os.chdir to the matching working directory in the pool worker (restored afterwards), in the forked child, or as cwd= of the fresh interpreter; the model does not see the spelling (operation [\"root\", k] has no words)",
     "the byte contract (ByteContract: round trip, unreadable proper prefixes, whitespace cuts) is a hypothesis of truncated_write_harmless; it is checked at every explored offset on the real writer and reader, and proved for the JSON model under C08",
 ]
 ASSUMPTIONS = [
@@ -300,6 +305,8 @@ def gen_fault_history(rnd, paths, maxlen, names=None):
             ops.append(["cfg", rnd.randrange(cr.CFGS)])
         elif r < 0.80:
             ops += [["ent", 1], ["s"], ["ent", 0]]
+        elif r < 0.83:
+            ops.append(["root", rnd.randrange(cr.SPELLINGS)])
         elif r < 0.85:
             ops.append(["ca", rnd.choice([0, 2, 3, 4]), rnd.randrange(4), rnd.randrange(cr.NCONTENT + 1), rnd.choice([0, 1000])])
         elif r < 0.88:
@@ -321,6 +328,51 @@ def _chunks(l, n):
 
 
 STALE = [["s"], ["w", 0, 2]]      # a cache that the next scan has to rewrite
+
+
+def respell(tasks, shift):
+    """a share of the variants of EVERY stream names the root differently: every third variant of a task (shifted per
+    task) starts with ["root", k], k = 1 .. SPELLINGS-1 in rotation - the fault, the scans after it and their judgement
+    are unchanged, only the root argument and the working directory of the scans differ (`cache_real.spell_root`)"""
+    out, n = [], 0
+    for t, task in enumerate(tasks):
+        variants = []
+        for i, var in enumerate(task[3]):
+            if (i + t) % 3 == 0:
+                variants.append([["root", 1 + (n + shift) % (cr.SPELLINGS - 1)]] + list(var))
+                n += 1
+            else:
+                variants.append(var)
+        out.append(tuple(task[:3]) + (variants,) + tuple(task[4:]))
+    return out, n
+
+
+def spelling_tasks(doc, size, thorough, shift):
+    """stream (6): representatives of every class of fault state (every junk text, truncations on a ladder of offsets,
+    every top-level member removed / null, the cache directory states) x EVERY spelling of the root x observation
+    points: scan_command for all, the CLI entry function for a quarter (thorough: all), a fresh `python -m codelimit
+    scan` for two per spelling (thorough: a quarter) -> (tasks, counts)"""
+    faults = [[f] for f in junk_faults()]
+    offs = sorted(set([0, 1, 2, 10, 100, size // 2, size - 2, size - 1]) | set(n for n in (1000, 10000) if n < size))
+    faults += [[["trunc", n]] for n in offs]
+    faults += [[[k, [key]] + ([None] if k == "jset" else [])] for key in doc for k in ("jdel", "jset")]
+    faults += [[["cm"]], [["cm"], ["M"]], [["M"], ["trunc", 40]], [["D"], ["bytes", "junk"]], [["cmv"], ["bytes", "{"]]]
+    tasks, counts = [], {"scan_command": 0, "entry_function": 0, "fresh_interpreter": 0}
+    for k in range(1, cr.SPELLINGS):
+        lib = [[["root", k]] + f + [["s"], ["s"]] for f in faults]
+        counts["scan_command"] += len(lib)
+        for ch in _chunks(lib, 3):
+            tasks.append((MEDIUM, 0, [["s"]], ch, k % cr.CFGS))
+        ent = [[["root", k]] + f + [["s"], ["ent", 0], ["s"]] for i, f in enumerate(faults) if thorough or (i + k + shift) % 4 == 0]
+        counts["entry_function"] += len(ent)
+        for ch in _chunks(ent, 2):
+            tasks.append((MEDIUM, 0, [["s"]], ch, k % 2, 1))
+        fi = [[["root", k]] + f + [["s"], ["ent", 0], ["s"]] for i, f in enumerate(faults)
+              if ((i + k + shift) % 4 == 1 if thorough else (i + 5 * k + shift) % len(faults) in (0, len(faults) // 2))]
+        counts["fresh_interpreter"] += len(fi)
+        for ch in _chunks(fi, 2):
+            tasks.append((MEDIUM, 0, [["s"]], ch, k % 2, 2))
+    return tasks, counts
 
 
 def _correspond_main(ctx):
@@ -415,6 +467,10 @@ def _correspond_main(ctx):
         part = lv if ctx.thorough else [v for i, v in enumerate(lv) if i % cr.CFGS == k]
         for ch in _chunks(part, 4):
             tasks.append((MEDIUM, 0, [["s"]], ch, k))
+    # root spellings x working directories: a share of every stream above, and stream (6): fault classes x every spelling
+    tasks, n_respelled = respell(tasks, common.seed())
+    sp_tasks, n_spell = spelling_tasks(json.loads(medium[0].decode()), len(medium[0]), ctx.thorough, common.seed())
+    tasks += sp_tasks
     recs = [r for part in cr.pool_map(cr.run_variants, tasks) for r in part]
     recs = cr.run_histories(REGRESS) + recs          # the regress corpus first
     # (4) random fault histories
@@ -466,17 +522,27 @@ def _correspond_main(ctx):
                 e = op[1]
             elif op[0] == "s":
                 per_entry[str(e)] = per_entry.get(str(e), 0) + 1
+    per_spelling = {}
+    for r in recs + rrecs:
+        k = 0
+        for op in r["input"]["ops"]:
+            if op[0] == "root":
+                k = op[1] % cr.SPELLINGS
+            elif op[0] in ("s", "ks"):
+                per_spelling[cr.SPELLING_NAMES[k]] = per_spelling.get(cr.SPELLING_NAMES[k], 0) + 1
     fails = _shrunk(fails)
     return {
         "evaluations": nscans,
         "distinct_nontrivial": len(set(json.dumps([r["input"].get("cfg", 0), r["input"].get("entry", 0), r["input"]["ops"]]) for r in recs + rrecs)),
-        "rule": "truncation of the cache file at every byte offset of a one-file cache (%s bytes under the 4 configurations default / verbose / repository / both) and at %d %s offsets of a four-file cache (%d bytes%s); structural faults on a two-file cache under each configuration (%s: junk texts, every key removed at every level, every member/element replaced by %d values of other JSON types incl. empty ones, every string by the other shapes of the same value: upper case, braces, urn:, without separators, reversed, padded, cut, doubled, every number by 10^400, -10^400, 2^63, -1, 2.5 and the JSON texts 1e400, -1e400, NaN, Infinity, -Infinity); %d documents with two or three fields faulted at once on the four-file cache (every pair of fields at corresponding places - same key of two files / languages / folders / measurements, two elements of a list - x value combinations incl. beyond-range integer with fraction, plus random pairs and triples); %d regress histories first; the same faults through the function behind `codelimit scan` (codelimit.__main__.scan in a forked child, without / with -v: %d faults - quick tier: junk texts, top-level members, every tenth of the rest - %d truncation offsets) and through `python -m codelimit scan` in a fresh interpreter (%d: junk texts incl. top-level values of every JSON type, top-level members removed / of other JSON types%s); after every scan the cache left behind is compared FIELD BY FIELD with the cache a from-scratch scan of a copy writes (same keys at every level, same JSON types, same values; identifier and time stamp of the writer's shape); cache directory without file / markers / removed, under each configuration; %d scans really stopped in a child process (RLIMIT_FSIZE at %s byte counts with SIGXFSZ killing / EFBIG raised, SIGKILL before the k-th file-system modification, k < 6, and both in a row) from 3 states (never scanned, cache of an older tree, cache up to date) over the 4 configurations; %d histories with an extra file in the cache directory (%d names = 5 stems x 10 suffixes + %d names stopped scans really left: %s), cache files with old / future mtimes (10^k s), cache directory renamed away; %d random histories of faults (incl. stopped scans, extra files, mtimes), edits, configuration switches and scans of length <= 16; after each fault two scans (repairing scan, then a scan that must reuse everything); %d scans in total; forged (outside the property) histories skipped: %d" % (
+        "rule": "truncation of the cache file at every byte offset of a one-file cache (%s bytes under the 4 configurations default / verbose / repository / both) and at %d %s offsets of a four-file cache (%d bytes%s); structural faults on a two-file cache under each configuration (%s: junk texts, every key removed at every level, every member/element replaced by %d values of other JSON types incl. empty ones, every string by the other shapes of the same value: upper case, braces, urn:, without separators, reversed, padded, cut, doubled, every number by 10^400, -10^400, 2^63, -1, 2.5 and the JSON texts 1e400, -1e400, NaN, Infinity, -Infinity); %d documents with two or three fields faulted at once on the four-file cache (every pair of fields at corresponding places - same key of two files / languages / folders / measurements, two elements of a list - x value combinations incl. beyond-range integer with fraction, plus random pairs and triples); %d regress histories first; the same faults through the function behind `codelimit scan` (codelimit.__main__.scan in a forked child, without / with -v: %d faults - quick tier: junk texts, top-level members, every tenth of the rest - %d truncation offsets) and through `python -m codelimit scan` in a fresh interpreter (%d: junk texts incl. top-level values of every JSON type, top-level members removed / of other JSON types%s); after every scan the cache left behind is compared FIELD BY FIELD with the cache a from-scratch scan of a copy writes (same keys at every level, same JSON types, same values; identifier and time stamp of the writer's shape); cache directory without file / markers / removed, under each configuration; %d scans really stopped in a child process (RLIMIT_FSIZE at %s byte counts with SIGXFSZ killing / EFBIG raised, SIGKILL before the k-th file-system modification, k < 6, and both in a row) from 3 states (never scanned, cache of an older tree, cache up to date) over the 4 configurations; %d histories with an extra file in the cache directory (%d names = 5 stems x 10 suffixes + %d names stopped scans really left: %s), cache files with old / future mtimes (10^k s), cache directory renamed away; %d random histories of faults (incl. stopped scans, extra files, mtimes), edits, configuration switches and scans of length <= 16; after each fault two scans (repairing scan, then a scan that must reuse everything); %d scans in total; forged (outside the property) histories skipped: %d; ROOT SPELLINGS x WORKING DIRECTORIES: every third variant of every stream above (%d) and a share of the random histories name the root of their scans in one of %d other ways (%s), and %d + %d + %d histories (scan_command / CLI entry function / fresh interpreter) run representatives of every fault class (every junk text, truncation offsets on a ladder, every top-level member removed / null, the cache directory states) under EVERY such spelling; scans per spelling: %s" % (
             "/".join(str(len(small[k])) for k in cfgs), len(offs_large), "(all)" if ctx.thorough else "stratified (every 5th, around every line break, the last three)", len(large),
             " under each configuration" if ctx.thorough else "", "/".join(str(n_faults[k]) for k in cfgs), len(OTHER_VALUES),
             n_cli["several_fields_at_once"], len(REGRESS),
             n_cli["entry_function"], n_cli["truncations_entry_function"], n_cli["fresh_interpreter"], ", all others" if ctx.thorough else "",
             n_stop, "all" if ctx.thorough else "stratified (around the sizes of the marker files and of the cache file, every 97th between)",
-            len(lv), len(names), len(left), left, nrand, nscans, forged),
+            len(lv), len(names), len(left), left, nrand, nscans, forged,
+            n_respelled, cr.SPELLINGS - 1, "; ".join(cr.SPELLING_NAMES[1:]), n_spell["scan_command"], n_spell["entry_function"], n_spell["fresh_interpreter"],
+            json.dumps(per_spelling, sort_keys=True)),
         "samples": [{"request": r["request"][:300], "real_last_scan": str(r["real"][-1])[:200]} for r in (recs[3:5] + recs[-2:] + rrecs[:2])],
         "exhaustive": True,
         "distribution": {"truncation_offsets": n_trunc, "structural_faults": n_faults, "ops": kinds,
@@ -484,7 +550,8 @@ def _correspond_main(ctx):
                          "stopped_scans": n_stop, "histories_with_stopped_scans": stopped,
                          "extra_file_mtime_rename_histories": len(lv), "leftover_names_discovered": left,
                          "histories_per_configuration": per_cfg, "faults_through_the_command_line": n_cli,
-                         "scans_per_observation_point": per_entry,
+                         "scans_per_observation_point": per_entry, "scans_per_root_spelling": per_spelling,
+                         "variants_respelled": n_respelled, "fault_classes_under_every_spelling": n_spell,
                          "oracle_only_histories": sum(1 for r in recs + rrecs if r.get("oracle_only"))},
         "disagreements": dis[:50], "oracle_failures": fails[:50],
     }
